@@ -396,7 +396,11 @@ func recSpeciation(args []string) int {
 	sr.rep.Extra["joined_species_other_than_first_compatible"] = sr.joinedNF
 	sr.rep.Extra["founded_while_species_existed"] = sr.foundedAO
 	sr.rep.Extra["events_skipped_unsorted_genome"] = sr.skipped
-	sr.rep.Extra["aborted"] = sr.aborted
+	sr.rep.Extra["aborted_scenarios"] = len(sr.aborted)
+	if len(sr.aborted) > 4 {
+		sr.aborted = sr.aborted[:4]
+	}
+	sr.rep.Extra["aborted_first"] = sr.aborted
 	code := sr.rep.Write(*repFile)
 	if code == 1 {
 		code = 0
